@@ -80,6 +80,9 @@ def execute(case):
             want = expected_chunks(spec, rpc)
             if chunks != want:
                 fails.append({"sig": {"kind": "preferred-chunks"}, "detail": f"L={L} rpc={rpc}: advertised {chunks} != {want}"})
+        if case.get("pad") and all("error" in v for v in snaps.values()):
+            # a reader that refuses padded files does so for every request size: nothing depends on records_per_chunk
+            fails = [f for f in fails if f["sig"]["kind"] != "open-or-load-raises"]
         pairs = [(1, r) for r in rpcs(L)[1:]]
         if L <= 3:
             rs = rpcs(L)
